@@ -55,6 +55,9 @@ def points(tier):
             pts.append(["file", tier, i, case])
         # the same object after an in-memory edit of the index (first sample dropped from every curve)
         pts.append(["file", tier, i, "upper", "crop-top"])
+        # every column kept as text (dtypes=False): numeric-looking strings must stay strings in a copy
+        if name.startswith("gen:") or name.startswith("textcurve") or i % 7 == 0:
+            pts.append(["file", tier, i, "upper", "dtypes-text"])
     for name in SCRATCH:
         pts.append(["scratch", name])
     depth = 2 if tier == "quick" else 3
@@ -297,7 +300,7 @@ def check_point(pt, only=None):
         edit = pt[4] if len(pt) > 4 else None
 
         def make():
-            las = lasio.read(text, mnemonic_case=case)
+            las = lasio.read(text, mnemonic_case=case, **({"dtypes": False} if edit == "dtypes-text" else {}))
             if edit == "crop-top":
                 if not len(las.curves) or len(las.curves[0].data) < 3:
                     raise ValueError("nothing to crop")
